@@ -13,6 +13,7 @@ import Driver.Gens
 import Driver.SynthDrv
 import Driver.NormDrv
 import Cirbo.Model.Pattern
+import Cirbo.Model.ConeTable
 /-! `cirbo_model`: one JSON request per input line, one JSON response per output line. -/
 open Lean Cirbo Driver
 
@@ -278,6 +279,27 @@ def handle (j : Json) : Except String Json := do
     match GateType.ofName? tyName with
     | none => throw "bad type"
     | some ty => pure (ofExcept (fun (n : Nat) => Json.num (n : JsonNumber)) (Pattern.evalPattern k ty ops))
+  | "cone_table" => do
+    -- the cone simulation of `_get_subcircuits`, the strings of `_eval_dont_cares` and the table with don't-cares
+    let c ← getCircuit j
+    let leaves ← strs (← j.getObjVal? "leaves")
+    let nodes ← strs (← j.getObjVal? "nodes")
+    let outs ← strs (← j.getObjVal? "outs")
+    match Cone.simulate c leaves nodes with
+    | .error e => pure (err e)
+    | .ok tt =>
+      match gatesTruthTable c with
+      | .error e => pure (err e)
+      | .ok gtt =>
+        let reach := Cone.inputsTT leaves.length (Cone.occOf gtt (2 ^ c.inputs.length) leaves.reverse)
+        let tab := Cone.ttDC leaves.length (outs.map (Cone.ttGet tt)) reach
+        pure (ok (Json.mkObj [
+          ("patterns", Json.arr ((leaves ++ nodes).map (fun l =>
+            Json.arr #[Json.str l, Json.num (Lean.JsonNumber.fromNat (Cone.ttGet tt l))])).toArray),
+          ("reach", Json.arr (reach.map jBs).toArray),
+          ("table", Json.arr (tab.map (fun row => Json.arr (row.map (fun e => match e with
+            | none => Json.null
+            | some b => Json.bool b)).toArray)).toArray)]))
   | "normalize" => NormDrv.handle op j
   | "denormalize" => NormDrv.handle op j
   | "denorm_rows" => NormDrv.handle op j
